@@ -119,14 +119,20 @@ def split_blocks(text):
     return blocks
 
 
-def mute_dirs(hdr):
-    """Header copy whose DIR lines carry nops=-1: the writer-model comparison (D lines) is done once."""
+def mute_dirs(hdr, cases):
+    """Header for a further chunk of a large block: only the directories its cases refer to,
+    with nops=-1 on the DIR lines (the writer-model comparison, D lines, is done once)."""
+    need = set(c.split()[2] for c in cases)
     out = []
     for l in hdr:
-        if l.startswith("DIR "):
-            fs = l.split()
-            fs[3] = "-1"
-            l = " ".join(fs)
+        fs = l.split(" ", 4)
+        if fs[0] in ("DIR", "F", "ENDDIR"):
+            if fs[1] not in need:
+                continue
+            if fs[0] == "DIR":
+                fs = l.split()
+                fs[3] = "-1"
+                l = " ".join(fs)
         out.append(l)
     return out
 
@@ -138,7 +144,7 @@ def shard(blocks, jobs, chunk=250):
             units.append((hdr, cases))
         else:
             for i in range(0, len(cases), chunk):
-                units.append((hdr if i == 0 else mute_dirs(hdr), cases[i:i + chunk]))
+                units.append((hdr if i == 0 else mute_dirs(hdr, cases[i:i + chunk]), cases[i:i + chunk]))
     shards = [[] for _ in range(jobs)]
     load = [0] * jobs
     for u in sorted(units, key=lambda u: -len(u[1]) - len(u[0]) // 4):
